@@ -543,7 +543,13 @@ def rule_narrowed_kind_compared(check, rule):
                     x.lineno = chain[-1].lineno
                     tests.append(x)
     if not tests:
-        check.holds(rule, '%s %s' % (fi.loc(), fi.key), 'no per-keyword exit in autoforwards_partial', key=key, nontrivial=False)
+        masks_discovered = any(isinstance(c, ast.Call) and norm(c.func).split('.')[-1] in ('_mask', 'mask') for c in ast.walk(fi.node))
+        if masks_discovered:
+            check.violation(rule, '%s %s' % (fi.loc(), fi.key), 'the discovered signature is masked with the partial\'s keywords without an exit for a keyword '
+                            'that names a parameter discovery narrowed to positional-only: it would be taken for one that goes to **kwargs', key=key,
+                            witness='def w(x, *args, **kwargs): return inner(*args, **kwargs); def inner(a=1, /, **kwargs): ...; partial(w, x=0)')
+        else:
+            check.holds(rule, '%s %s' % (fi.loc(), fi.key), 'nothing is masked in autoforwards_partial', key=key, nontrivial=False)
         return
     for t in tests:
         kinds = [c for c in ast.walk(t.test) if isinstance(c, ast.Compare) and all(isinstance(o, ast.Attribute) and o.attr == 'kind'
